@@ -111,6 +111,10 @@ type c10Case struct {
 	XFF    []lat1   `json:"xff"`      // X-Forwarded-For lines
 	Alt    [][]lat1 `json:"alt"`      // attacker-chosen replacement prefixes (lists of entries)
 	AltR   []lat1   `json:"alt_real"` // attacker-chosen replacement X-Real-Ip values
+	// round 8: OTHER request headers an attacker (or an intermediary) may add — Forwarded, X-Client-IP, True-Client-IP,
+	// CF-Connecting-IP, X-Forwarded-Host ...: name, value.  The base request is served once more with them; no extractor may
+	// look at anything but RemoteAddr and its own header
+	Extra [][2]lat1 `json:"extra,omitempty"`
 	// Kind 1
 	Addrs []string `json:"addrs"` // IP literals
 	// Kind 3 (c10_parse.go): tokens for net.ParseIP vs the model's parseIP
@@ -121,6 +125,7 @@ type c10Req struct {
 	remote string
 	real   []string
 	xff    []string
+	extra  [][2]string // further request headers (neither X-Real-Ip nor X-Forwarded-For)
 }
 
 // derive evaluates the option list the way the property reads it.
@@ -307,6 +312,11 @@ func c10BuildReq(q c10Req) *http.Request {
 	if len(q.real) > 0 {
 		req.Header[echo.HeaderXRealIP] = append([]string(nil), q.real...)
 	}
+	for _, h := range q.extra {
+		if k := http.CanonicalHeaderKey(h[0]); k != echo.HeaderXRealIP && k != echo.HeaderXForwardedFor {
+			req.Header.Add(h[0], h[1]) // as net/http stores it: canonical key
+		}
+	}
 	return req
 }
 
@@ -368,7 +378,7 @@ func c10Run(ci any) (res Result) {
 		fmt.Sprintf("flags-%s%s%s", wBool(c.LB), wBool(c.LL), wBool(c.PN))}
 
 	tags = append(tags, c.optTags()...)
-	base := c10Req{string(c.Remote), unlat1s(c.Real), unlat1s(c.XFF)}
+	base := c10Req{remote: string(c.Remote), real: unlat1s(c.Real), xff: unlat1s(c.XFF)}
 	host := c10Host(base.remote)
 	hostIP := net.ParseIP(host)
 	reqs := []c10Req{base}
@@ -389,11 +399,11 @@ func c10Run(ci any) (res Result) {
 	switch c.Ext {
 	case 0:
 		for _, a := range c.Alt {
-			reqs = append(reqs, c10Req{base.remote, base.real, unlat1s(a)})
+			reqs = append(reqs, c10Req{remote: base.remote, real: base.real, xff: unlat1s(a)})
 			rel = append(rel, relExact)
 		}
 		for _, a := range c.AltR {
-			reqs = append(reqs, c10Req{base.remote, []string{string(a)}, base.xff})
+			reqs = append(reqs, c10Req{remote: base.remote, real: []string{string(a)}, xff: base.xff})
 			rel = append(rel, relExact)
 		}
 	case 1:
@@ -401,10 +411,10 @@ func c10Run(ci any) (res Result) {
 			tags = append(tags, "realip-untrusted-peer")
 			// an untrusted peer controls every header: none of them may matter
 			for _, a := range c.AltR {
-				reqs = append(reqs, c10Req{base.remote, []string{string(a)}, base.xff})
+				reqs = append(reqs, c10Req{remote: base.remote, real: []string{string(a)}, xff: base.xff})
 				rel = append(rel, relExact)
 			}
-			reqs = append(reqs, c10Req{base.remote, nil, nil})
+			reqs = append(reqs, c10Req{remote: base.remote, real: nil, xff: nil})
 			rel = append(rel, relExact)
 		}
 	case 2:
@@ -418,11 +428,11 @@ func c10Run(ci any) (res Result) {
 			// the peer itself is the right-most untrusted hop: the whole header is forgeable
 			for k, a := range c.Alt {
 				if len(a) == 0 {
-					reqs = append(reqs, c10Req{base.remote, base.real, nil})
+					reqs = append(reqs, c10Req{remote: base.remote, real: base.real, xff: nil})
 					rel = append(rel, relSameIP)
 					continue
 				}
-				reqs = append(reqs, c10Req{base.remote, base.real, c10Lines(unlat1s(a), k)})
+				reqs = append(reqs, c10Req{remote: base.remote, real: base.real, xff: c10Lines(unlat1s(a), k)})
 				rel = append(rel, relExact)
 			}
 		} else if decisive >= 0 {
@@ -430,16 +440,27 @@ func c10Run(ci any) (res Result) {
 			keep := ents[decisive:]
 			for k, a := range c.Alt {
 				v := append(append([]string(nil), unlat1s(a)...), keep...)
-				reqs = append(reqs, c10Req{base.remote, base.real, c10Lines(v, k)})
+				reqs = append(reqs, c10Req{remote: base.remote, real: base.real, xff: c10Lines(v, k)})
 				rel = append(rel, relExact)
 			}
 		}
+	}
+	nExtra := -1
+	if len(c.Extra) > 0 {
+		x := base
+		for _, h := range c.Extra {
+			x.extra = append(x.extra, [2]string{string(h[0]), string(h[1])})
+		}
+		nExtra = len(rel)
+		reqs = append(reqs, x)
+		rel = append(rel, relExact)
+		tags = append(tags, "extra-headers")
 	}
 	nRel := len(rel)
 	// unrelated requests through the same Echo / the same extractor closure, then the base
 	// request once more: nothing may be carried over from one request to the next
 	for _, m := range c.More {
-		reqs = append(reqs, c10Req{string(m.Remote), unlat1s(m.Real), unlat1s(m.XFF)})
+		reqs = append(reqs, c10Req{remote: string(m.Remote), real: unlat1s(m.Real), xff: unlat1s(m.XFF)})
 		rel = append(rel, relIndep)
 	}
 	if len(c.More) > 0 {
@@ -475,6 +496,8 @@ func c10Run(ci any) (res Result) {
 	}
 	results := make([]string, len(reqs))
 	var reqWire, obs []string
+	var ambiguous []bool // per (host, result) pair of the observation line, for c10Tolerable
+	defer func() { c10NoteShape(c, ambiguous) }()
 	tokensFor := func(extKind int, q c10Req) {
 		h := c10Host(q.remote)
 		switch extKind {
@@ -505,6 +528,7 @@ func c10Run(ci any) (res Result) {
 		results[i] = seen
 		reqWire = append(reqWire, wStr(q.remote), wStrs(q.real), wStrs(q.xff))
 		obs = append(obs, wStr(h), wStr(seen))
+		ambiguous = append(ambiguous, c10AmbiguousReal(c.Ext, q))
 		if i == 0 {
 			held.Reset(c10BuildReq(q), httptest.NewRecorder())
 			made.SetRequest(c10BuildReq(q))
@@ -525,12 +549,13 @@ func c10Run(ci any) (res Result) {
 		e.IPExtractor = ext2
 		tags = append(tags, fmt.Sprintf("replaced-ext-%d-by-%d", c.Ext, c2.Ext))
 		for i, m := range c.Phase2.Reqs {
-			q := c10Req{string(m.Remote), unlat1s(m.Real), unlat1s(m.XFF)}
+			q := c10Req{remote: string(m.Remote), real: unlat1s(m.Real), xff: unlat1s(m.XFF)}
 			tokensFor(c2.Ext, q)
 			seen = "<handler did not run>"
 			e.ServeHTTP(httptest.NewRecorder(), c10BuildReq(q))
 			want, _, _ := c10Ref(c2, nets2, q)
-			if seen != want {
+			ambiguous = append(ambiguous, c10AmbiguousReal(c2.Ext, q))
+			if !c10AgreeReq(c2.Ext, q, seen, want) {
 				fail("after Echo.IPExtractor was replaced (extractor %d -> %d), request %d (peer %q X-Real-Ip=%q X-Forwarded-For=%q): RealIP() = %q, the installed extractor's reading gives %q",
 					c.Ext, c2.Ext, i, q.remote, strings.Join(q.real, "|"), strings.Join(q.xff, "|"), seen, want)
 			}
@@ -539,7 +564,7 @@ func c10Run(ci any) (res Result) {
 			}
 			held.Reset(c10BuildReq(q), httptest.NewRecorder())
 			made.SetRequest(c10BuildReq(q))
-			if hv, mv := held.RealIP(), made.RealIP(); hv != want || mv != want {
+			if hv, mv := held.RealIP(), made.RealIP(); !c10AgreeReq(c2.Ext, q, hv, want) || !c10AgreeReq(c2.Ext, q, mv, want) {
 				fail("after Echo.IPExtractor was replaced (extractor %d -> %d), request %d: a context acquired before the replacement answers %q, one created by NewContext before it %q; the installed extractor's reading gives %q",
 					c.Ext, c2.Ext, i, hv, mv, want)
 			}
@@ -556,7 +581,7 @@ func c10Run(ci any) (res Result) {
 	if hostIP != nil && net.ParseIP(r0) == nil {
 		fail("peer %q is a valid IP literal but the result %q is not", host, r0)
 	}
-	if haveExpect && r0 != expect {
+	if haveExpect && !c10AgreeReq(c.Ext, base, r0, expect) {
 		switch c.Ext {
 		case 0:
 			fail("direct extractor returned %q, peer is %q", r0, expect)
@@ -575,7 +600,7 @@ func c10Run(ci any) (res Result) {
 		if kind == relIndep {
 			q := reqs[k+1]
 			want, _, _ := c10Ref(c, nets, q)
-			if rv != want {
+			if !c10AgreeReq(c.Ext, q, rv, want) {
 				fail("request %d of the sequence (peer %q X-Real-Ip=%q X-Forwarded-For=%q): extractor %d returned %q, the property's reading gives %q",
 					k+1, q.remote, strings.Join(q.real, "|"), strings.Join(q.xff, "|"), c.Ext, rv, want)
 			}
@@ -584,11 +609,15 @@ func c10Run(ci any) (res Result) {
 			}
 			continue
 		}
-		ok := rv == r0
-		if kind == relSameIP {
-			ok = rv == r0 || c10SameIP(rv, r0)
-		}
-		if !ok && k >= nRel {
+		// the same ADDRESS (the property does not fix its spelling); texts only when one side is no IP literal
+		ok := c10Agree(rv, r0)
+		if !ok && k == nExtra {
+			var hs []string
+			for _, h := range reqs[k+1].extra {
+				hs = append(hs, h[0]+": "+h[1])
+			}
+			fail("adding request headers that are neither X-Real-Ip nor X-Forwarded-For (%q) changed the result of extractor %d from %q to %q", hs, c.Ext, r0, rv)
+		} else if !ok && k >= nRel {
 			fail("the base request served again after %d other requests through the same Echo gives %q, the first time it gave %q", len(c.More), rv, r0)
 		} else if !ok {
 			fail("changing only attacker-controlled input (variant %d: X-Real-Ip=%q X-Forwarded-For=%q) changed the result from %q to %q",
@@ -647,7 +676,7 @@ func c10RunConcurrent(c *c10Case) Result {
 	oracle := ""
 	var reqs []c10Req
 	for _, m := range c.More {
-		reqs = append(reqs, c10Req{string(m.Remote), unlat1s(m.Real), unlat1s(m.XFF)})
+		reqs = append(reqs, c10Req{remote: string(m.Remote), real: unlat1s(m.Real), xff: unlat1s(m.XFF)})
 	}
 	// sequential pass: reference reading, model line
 	seenTok := map[string]bool{}
@@ -668,6 +697,8 @@ func c10RunConcurrent(c *c10Case) Result {
 	}
 	want := make([]string, len(reqs))
 	var reqWire, obs []string
+	var ambiguous []bool
+	defer func() { c10NoteShape(c, ambiguous) }()
 	for i, q := range reqs {
 		h := c10Host(q.remote)
 		switch c.Ext {
@@ -686,7 +717,8 @@ func c10RunConcurrent(c *c10Case) Result {
 		}
 		want[i], _, _ = c10Ref(c, nets, q)
 		got := ext(c10BuildReq(q))
-		if got != want[i] && oracle == "" {
+		ambiguous = append(ambiguous, c10AmbiguousReal(c.Ext, q))
+		if !c10AgreeReq(c.Ext, q, got, want[i]) && oracle == "" {
 			oracle = fmt.Sprintf("request %d alone: extractor %d returned %q, the property's reading gives %q", i, c.Ext, got, want[i])
 		}
 		reqWire = append(reqWire, wStr(q.remote), wStrs(q.real), wStrs(q.xff))
@@ -733,7 +765,7 @@ func c10RunConcurrent(c *c10Case) Result {
 					e.ServeHTTP(rec, mine[i])
 					got = rec.Body.String()
 				}
-				if got != want[i] {
+				if got != want[i] && !c10AgreeReq(c.Ext, reqs[i], got, want[i]) {
 					bads[g] = &bad{g: g, it: it, i: i, got: got}
 					return
 				}
@@ -1076,7 +1108,7 @@ func c10Remote(r *rand.Rand, host string) string {
 	case 8:
 		return "[[" + host + "]]:" + port
 	case 9:
-		return ""
+		return c10Pick(r, []string{"", "", "@", "/var/run/app.sock", "pipe", "unix:@app", host + ":http", "localhost:" + port})
 	case 10:
 		return "[" + host + "%eth0]:" + port
 	case 11:
@@ -1255,6 +1287,36 @@ func c10GenList(r *rand.Rand, c *c10Case, n int) []string {
 	return out
 }
 
+// header names other than the two the extractors are configured for: what proxies, CDNs and "get the client IP"
+// snippets look at
+var c10OtherHeaders = []string{"Forwarded", "X-Forwarded", "X-Forwarded-Host", "X-Forwarded-Proto", "X-Forwarded-Port", "X-Forwarded-Server", "X-Client-IP", "X-Cluster-Client-IP",
+	"True-Client-IP", "CF-Connecting-IP", "Fastly-Client-IP", "X-Original-Forwarded-For", "X-Originating-IP", "X-Remote-IP", "X-Remote-Addr", "Client-IP", "Via",
+	"X-Envoy-External-Address", "X-Real-IP-Override", "X-Forwarded-For-Original", "X-ProxyUser-Ip", "X-Appengine-User-Ip", "Proxy-Client-IP", "WL-Proxy-Client-IP", "X-Host", "Remote-Addr"}
+
+func c10GenExtra(r *rand.Rand, c *c10Case) [][2]lat1 {
+	var out [][2]lat1
+	for n := 1 + r.Intn(3); n > 0; n-- {
+		name := c10Pick(r, c10OtherHeaders)
+		v := c10Addr(r, c, r.Intn(3))
+		switch {
+		case name == "Forwarded":
+			if strings.Contains(v, ":") {
+				v = "\"[" + v + "]\""
+			}
+			v = "for=" + v + c10Pick(r, []string{"", ";proto=https", ";by=10.0.0.1", ", for=10.0.0.2"})
+		case r.Intn(4) == 0:
+			v = v + ", " + c10Addr(r, c, 0)
+		case r.Intn(6) == 0:
+			v = c10Decorate(r, v)
+		}
+		if r.Intn(5) == 0 {
+			name = strings.ToLower(name) // net/http canonicalises the key
+		}
+		out = append(out, [2]lat1{lat1(name), lat1(v)})
+	}
+	return out
+}
+
 func c10GenReqCase(r *rand.Rand, big bool) *c10Case {
 	c := &c10Case{Kind: 0}
 	f := r.Intn(8)
@@ -1284,6 +1346,9 @@ func c10GenReqCase(r *rand.Rand, big bool) *c10Case {
 		c.Alt = append(c.Alt, lat1s(c10GenList(r, c, r.Intn(4))))
 	}
 	c.AltR = lat1s(c10GenList(r, c, 1+r.Intn(2)))
+	if r.Intn(3) == 0 {
+		c.Extra = c10GenExtra(r, c)
+	}
 	if r.Intn(5) == 0 {
 		c.Phase2 = c10GenPhase2(r, c)
 	}
@@ -1637,6 +1702,18 @@ func c10Shrink(ci any) []any {
 			}
 		}
 	}
+	if len(c.Extra) > 0 {
+		d := cp()
+		d.Extra = nil
+		out = append(out, d)
+		if len(c.Extra) > 1 {
+			for i := range c.Extra {
+				d := cp()
+				d.Extra = append(append([][2]lat1(nil), c.Extra[:i]...), c.Extra[i+1:]...)
+				out = append(out, d)
+			}
+		}
+	}
 	for i := range c.Opts {
 		d := cp()
 		d.Opts = append(d.Opts[:i], d.Opts[i+1:]...)
@@ -1751,12 +1828,13 @@ func c10Min(a, b int) int {
 func init() {
 	register(&Prop{
 		ID:             "C10",
-		Rule:           "(a) requests: extractor {direct, X-Real-IP, X-Forwarded-For} x all 8 trust-flag combinations x 0-5 (rarely 20/21) extra ranges (CIDR pool incl. ranges inside / straddling the built-in classes, random prefix lengths, 16-byte / mixed-length / non-contiguous IPNets), passed as an ORDERED option list: canonical, only the non-default flags (down to no option at all), ranges before flags, any interleaving, flags given twice with the last value counting, the SAME option 2-4 times with equal and with changing arguments, ranges repeated; the option slice is overwritten after the extractor was constructed x peers (RemoteAddr with ports, brackets, malformed) x X-Forwarded-For lists built as prefix ++ [untrusted or unparsable entry] ++ trusted suffix over 0-4 header lines with spaces (ASCII and Unicode), brackets, garbage, IPv4 / IPv6 / IPv4-mapped literals, plus free-form lists; every case also runs variants that differ only in attacker-controlled input (entries left of the decisive hop, headers of an untrusted peer) and requires the same result; each request goes through Context.RealIP and the extractor directly; a third of the cases continue with 1-12 unrelated requests (own reference reading each) through the same Echo instance and extractor closure and then repeat the base request; a fifth then REPLACE Echo.IPExtractor (mostly by a stricter one: direct, a class switched off, ranges dropped) and serve 1-5 more requests through the same Echo, also through a context acquired and one created by NewContext BEFORE the replacement. (c) concurrency: 30 (thorough 200) cases in which 8-16 goroutines issue a set of 3-12 requests with different chains 1500-4000 times each through ONE extractor value and ONE Echo (extractor calls and ServeHTTP mixed); every single answer must equal the property's reading for its own request. (b) classification tables: for every first octet and every (thorough) or boundary (quick) second octet the trust decision for b0.b1.0.1 and b0.b1.255.254 observed through both header extractors, under all-flags and single-flag configurations; structured IPv6 samples (every first byte x second-byte borders, ::1 neighbourhood, IPv4-mapped); tables around the borders of extra ranges. (d) net.ParseIP against the model's parseIP (EchoModel/C10Parse.lean): token lists (64 per case) holding every text of the cases above that can reach net.ParseIP (peer hosts, raw and normalised X-Forwarded-For entries, X-Real-Ip values, replacement entries, table addresses), a fixed adversarial set (leading zeros, 256, 3/5 fields, dots, signs, hex in IPv4, ::, ::1, 1::, 8 groups + ::, 9 groups, :::, embedded IPv4 in every position, zones, both hex cases, 5-digit groups, empty groups, white space incl. Unicode, non-ASCII digits, NUL), structured families (every decimal field 0..300 per position with/without leading zeros, every count of groups before/after :: with/without embedded IPv4, IP.String of all 256 zero/non-zero group patterns plus uncompressed and non-canonical spellings, inputs of 2000-5000 bytes) and 6000 (thorough 60000) random one/two-byte edits of valid literals; per token the oracle also checks net.ParseIP against netip.ParseAddr, the alphabet of accepted texts and the String round trip; the request cases additionally make the model compare parseIP with every entry of the parse table they ship. non-trivial = a request whose result differs from the peer or that ran relational variants, or a table containing both trusted and untrusted addresses, or a token list with accepted and rejected tokens; distinct = distinct model op lines",
+		Rule:           "(a) requests: extractor {direct, X-Real-IP, X-Forwarded-For} x all 8 trust-flag combinations x 0-5 (rarely 20/21) extra ranges (CIDR pool incl. ranges inside / straddling the built-in classes, random prefix lengths, 16-byte / mixed-length / non-contiguous IPNets), passed as an ORDERED option list: canonical, only the non-default flags (down to no option at all), ranges before flags, any interleaving, flags given twice with the last value counting, the SAME option 2-4 times with equal and with changing arguments, ranges repeated; the option slice is overwritten after the extractor was constructed x peers (RemoteAddr with ports, brackets, malformed) x X-Forwarded-For lists built as prefix ++ [untrusted or unparsable entry] ++ trusted suffix over 0-4 header lines with spaces (ASCII and Unicode), brackets, garbage, IPv4 / IPv6 / IPv4-mapped literals, plus free-form lists; every case also runs variants that differ only in attacker-controlled input (entries left of the decisive hop, headers of an untrusted peer) and requires the same result; a third of the cases serve the base request once more with 1-3 OTHER headers added (Forwarded, X-Client-IP, True-Client-IP, CF-Connecting-IP, X-Forwarded-Host, Via ... with forged / trusted / garbage values): no extractor may look at anything but RemoteAddr and its own header; RemoteAddr also in the shapes of unix-socket listeners (`@`, a path); reported addresses are compared with the reference as ADDRESSES when both are IP literals (spelling free), as texts otherwise; each request goes through Context.RealIP and the extractor directly; a third of the cases continue with 1-12 unrelated requests (own reference reading each) through the same Echo instance and extractor closure and then repeat the base request; a fifth then REPLACE Echo.IPExtractor (mostly by a stricter one: direct, a class switched off, ranges dropped) and serve 1-5 more requests through the same Echo, also through a context acquired and one created by NewContext BEFORE the replacement. (c) concurrency: 30 (thorough 200) cases in which 8-16 goroutines issue a set of 3-12 requests with different chains 1500-4000 times each through ONE extractor value and ONE Echo (extractor calls and ServeHTTP mixed); every single answer must equal the property's reading for its own request. (b) classification tables: for every first octet and every (thorough) or boundary (quick) second octet the trust decision for b0.b1.0.1 and b0.b1.255.254 observed through both header extractors, under all-flags and single-flag configurations; structured IPv6 samples (every first byte x second-byte borders, ::1 neighbourhood, IPv4-mapped); tables around the borders of extra ranges. (d) net.ParseIP against the model's parseIP (EchoModel/C10Parse.lean): token lists (64 per case) holding every text of the cases above that can reach net.ParseIP (peer hosts, raw and normalised X-Forwarded-For entries, X-Real-Ip values, replacement entries, table addresses), a fixed adversarial set (leading zeros, 256, 3/5 fields, dots, signs, hex in IPv4, ::, ::1, 1::, 8 groups + ::, 9 groups, :::, embedded IPv4 in every position, zones, both hex cases, 5-digit groups, empty groups, white space incl. Unicode, non-ASCII digits, NUL), structured families (every decimal field 0..300 per position with/without leading zeros, every count of groups before/after :: with/without embedded IPv4, IP.String of all 256 zero/non-zero group patterns plus uncompressed and non-canonical spellings, inputs of 2000-5000 bytes) and 6000 (thorough 60000) random one/two-byte edits of valid literals; per token the oracle also checks net.ParseIP against netip.ParseAddr, the alphabet of accepted texts and the String round trip; the request cases additionally make the model compare parseIP with every entry of the parse table they ship. non-trivial = a request whose result differs from the peer or that ran relational variants, or a table containing both trusted and untrusted addresses, or a token list with accepted and rejected tokens; distinct = distinct model op lines",
 		New:            func() any { return &c10Case{} },
 		Gen:            c10Gen,
 		Run:            c10Run,
 		Shrink:         c10Shrink,
 		Extra:          c10ParseExtra,
+		Tolerable:      c10Tolerable,
 		Correspondence: "C10.realIPCtx / C10.trust (lean/EchoModel/C10.lean) vs echo.ExtractIPDirect, ExtractIPFromRealIPHeader, ExtractIPFromXFFHeader through Context.RealIP; C10.parseIP (lean/EchoModel/C10Parse.lean) vs net.ParseIP",
 	})
 }
